@@ -5,6 +5,7 @@ import gen as G
 THEOREMS = ['field_commutes_with_integer', 'field_commutes_with_positional', 'projection_keeps_list_structure',
             'projection_keeps_none', 'record_to_value_order', 'unnamed_fields_give_tuples', 'field_refines_spec',
             'field_fails_only_for_missing_field', 'field_succeeds_when_typed']
+PY_HALF = True     # harness/pyhalves.py: the Python-layer functions of this property under pyshim
 RULE = ('record-bearing random layouts (records under lists, options, indexed nodes; tuples; zero fields; contents longer than '
         'the record length) x {field, fields} placed before / between / after positional items; every positional+field slice is '
         'also run with the field moved to the front and to the end and the three implementation results must agree '
